@@ -778,10 +778,65 @@ func lexHistoryCases() []Case {
 	return cs
 }
 
+// regexCase: Go's regexp on one of the lexer's patterns against the formal semantics of that
+// pattern in the model (Spec/Regex: reference matcher `Re.find`, which the hand-written
+// recognisers are proved equal to).  Index 0..9: literalForms; 10: keywordPostfix; 11: idReg.
+var reKeywordPostfixGo = regexp.MustCompile(`^[a-zA-Z\d\p{L}_]+`)
+var reIdentOpGo = regexp.MustCompile(`^[a-zA-Z\p{L}_][a-zA-Z0-9\p{L}_]*$`)
+
+func regexCase(k int, src string) Case {
+	human := fmt.Sprintf("regex[%d] %s", k, strconv.Quote(src))
+	if guardBegin(human) {
+		return crashCase(human)
+	}
+	defer guardEnd()
+	c := Case{Human: human, Req: sxList("regex", sxInt(k), sxStr(src)), Tags: []string{"gen:regex"}, Nontriv: len(src) > 0}
+	switch {
+	case k == 10:
+		c.Want = sxList("ok", fmt.Sprint(reKeywordPostfixGo.MatchString(src)))
+	case k == 11:
+		c.Want = sxList("ok", fmt.Sprint(reIdentOpGo.MatchString(src)))
+	default:
+		if m := literalForms[k].re.FindString(src); m != "" {
+			c.Want = sxList("ok", fmt.Sprint(len([]rune(m))))
+		} else {
+			c.Want = "(none)"
+		}
+	}
+	return c
+}
+
+func regexCases(r *rand.Rand, n int) []Case {
+	var cs []Case
+	g := lexFrag{r: r}
+	fixed := []string{"", "0", "00", "1.5", "1.5.25", "1.5e3", "1.5e3e4", "1e", "1e+", "1.e5", "1..2", "0x1F", "0x", "0b102", "0o78", "12ab",
+		`"a"`, `"a\"b"`, `"\u12aF"`, `"\u12"`, `"\x"`, `"a`, "\"a\nb\"", `""x`, "`a`b", "``", "'a'", "'a`'", "'a\"'", "abc", "a1_é", "1a", "_", "é中", "true", "truex"}
+	for _, s := range fixed {
+		for k := 0; k < 12; k++ {
+			cs = append(cs, regexCase(k, s))
+		}
+	}
+	for i := 0; i < n; i++ {
+		var s string
+		switch r.Intn(4) {
+		case 0:
+			s = g.number()
+		case 1:
+			s = g.str()
+		case 2:
+			s = g.ident() + g.pick("", " ", ".", "(", "1", "e5")
+		default:
+			s = g.number() + g.pick("", ".", "e", "x", ".5", "e+1", "e1e2", " ") + g.pick("", g.digits(2), g.ident())
+		}
+		cs = append(cs, regexCase(r.Intn(12), s))
+	}
+	return cs
+}
+
 func init() {
 	register(&Stream{
 		Name: "lex",
-		Rule: "lexer.NewLexer(ops).Lex(src) vs the Lean model, token kinds, lexemes and positions. Inputs: a fixed corpus x all operator sets; five exhaustive families x operator sets, each uniformly sampled down to n/5 when its space is larger: all strings up to length 3 (thorough: 5) over a 19-character mixed alphabet (operator characters, letters incl. é, digits, . e x, three quotes, backslash, space, newline), number-ish strings (<=4/6 over 01.eE+-xbof8), quoted strings (a double quote followed by <=4/7 over double quote, backslash, u n a 0 F g / and newline), raw/time strings (<=4/6), words (<=4/5 over true/and letters, _ 1 . space 非); n random sources (half of them from well-formed fragments only) glued from token-ish fragments (six number forms and near misses, strings/raw strings/times with good and bad escapes, identifiers incl. non-ASCII, registered operators glued to words, true/false + letters, ./? + operator characters, stray characters, random code points up to U+32000, Unicode white space) with one-rune mutations. Plus operator-table histories (tables used one after the other in one process: the same characters split differently, permuted, grown and shrunk, the same kinds with other fixities; two rounds) and long tokens / long inputs (every literal form, identifiers, operator and white-space runs, bracket nests and token sequences of 31..1000 runes, thorough: up to 70000). 13 operator sets: built-in, empty, prefix-overlapping, ./?-prefixed, identifier-like, all fixities, byte-vs-rune lengths, punctuation-prefixed, literal-like, nested, every operator character, mixed. Non-trivial = at least 2 runes; distinct = distinct request line.",
+		Rule: "lexer.NewLexer(ops).Lex(src) vs the Lean model, token kinds, lexemes and positions. Inputs: a fixed corpus x all operator sets; five exhaustive families x operator sets, each uniformly sampled down to n/5 when its space is larger: all strings up to length 3 (thorough: 5) over a 19-character mixed alphabet (operator characters, letters incl. é, digits, . e x, three quotes, backslash, space, newline), number-ish strings (<=4/6 over 01.eE+-xbof8), quoted strings (a double quote followed by <=4/7 over double quote, backslash, u n a 0 F g / and newline), raw/time strings (<=4/6), words (<=4/5 over true/and letters, _ 1 . space 非); n random sources (half of them from well-formed fragments only) glued from token-ish fragments (six number forms and near misses, strings/raw strings/times with good and bad escapes, identifiers incl. non-ASCII, registered operators glued to words, true/false + letters, ./? + operator characters, stray characters, random code points up to U+32000, Unicode white space) with one-rune mutations. Plus the regular expressions themselves: Go's regexp on each of the ten literal patterns, keywordPostfix and idReg against the formal semantics (reference matcher) of the model, on literal-ish strings. Plus operator-table histories (tables used one after the other in one process: the same characters split differently, permuted, grown and shrunk, the same kinds with other fixities; two rounds) and long tokens / long inputs (every literal form, identifiers, operator and white-space runs, bracket nests and token sequences of 31..1000 runes, thorough: up to 70000). 13 operator sets: built-in, empty, prefix-overlapping, ./?-prefixed, identifier-like, all fixities, byte-vs-rune lengths, punctuation-prefixed, literal-like, nested, every operator character, mixed. Non-trivial = at least 2 runes; distinct = distinct request line.",
 		Gen: func(r *rand.Rand, n int, thorough bool) []Case {
 			sets := lexOpSets()
 			var cs []Case
@@ -791,6 +846,7 @@ func init() {
 				}
 			}
 			cs = append(cs, lexHistoryCases()...)
+			cs = append(cs, regexCases(r, n/2+200)...)
 			for i, src := range lexLongSources(r, thorough) {
 				cs = append(cs, lexCase(sets[i%len(sets)], src, "long"))
 				cs = append(cs, lexCase(sets[0], src, "long"))
